@@ -264,6 +264,27 @@ pub fn judge(sc: &Scenario) -> Judgement {
             _ => None,
         })
         .collect();
+    // the texts that result from the edits, per document, in the client's send order
+    let mut want_texts: std::collections::BTreeMap<String, std::collections::VecDeque<String>> = Default::default();
+    {
+        let mut replica = crate::h::client::Replica::default();
+        for st in &sc.script {
+            match &st.op {
+                ClientOp::Open { uri, .. } => {
+                    replica.apply(&st.op);
+                    want_texts.entry(uri.clone()).or_default().push_back(replica.docs[uri].clone());
+                }
+                ClientOp::Change { uri, .. } => {
+                    if replica.docs.contains_key(uri) {
+                        replica.apply(&st.op);
+                        want_texts.entry(uri.clone()).or_default().push_back(replica.docs[uri].clone());
+                    }
+                }
+                ClientOp::Exit => break,
+                other => replica.apply(other),
+            }
+        }
+    }
     let mut prev_ok: std::collections::BTreeMap<String, bool> = Default::default();
     let (mut vv, mut vb, mut bv, mut bb) = (0u64, 0u64, 0u64, 0u64);
     let mut reported = false;
@@ -299,6 +320,25 @@ pub fn judge(sc: &Scenario) -> Judgement {
         };
         if reported {
             continue;
+        }
+        // "the resulting text": what the server analysed must be what the edits produce
+        if let Some(want) = want_texts.get_mut(&o.uri).and_then(|q| q.pop_front()) {
+            if want != o.doc.text {
+                j.violate(
+                    ID,
+                    "resulting-text",
+                    "resulting-text".into(),
+                    format!(
+                        "update #{k} of {}: the document the server analysed is not the text that results from the edits sent so far ({} bytes vs {} bytes; first difference at byte {})",
+                        o.uri,
+                        o.doc.text.len(),
+                        want.len(),
+                        want.bytes().zip(o.doc.text.bytes()).position(|(a, b)| a != b).unwrap_or(want.len().min(o.doc.text.len()))
+                    ),
+                );
+                reported = true;
+                continue;
+            }
         }
         if let Some((clause, sig, detail)) = compare(&o.doc, &fresh) {
             if clause == "tokens" {
